@@ -177,7 +177,8 @@ def _text_templates():
     both("strings_HasPrefix_Contains", [("w", "u32"), ("n", "u32"), ("c", "u8")], "u32", "s := string(vtBytes(w, n))\n\tt := string([]byte{c, 'a'})\n\th := u32(0)\n\tif strings.HasPrefix(s, t) {\n\t\th += 1\n\t}\n\tif strings.HasSuffix(s, t) {\n\t\th += 2\n\t}\n\tif strings.Contains(s, t) {\n\t\th += 4\n\t}\n\treturn h + u32(strings.Count(s, t))*8")
     both("strings_ToUpper_ToLower", wn, "u32", "s := string(vtBytes(w, n))\n\treturn vtHash(strings.ToUpper(s))*31 + vtHash(strings.ToLower(s))",
          zone=("w&0x80808080 != 0", "@non-ascii-input"))
-    both("strings_TrimSpace_Fields", wn, "u32", "s := string(vtBytes(w, n))\n\treturn vtHash(strings.TrimSpace(s))*31 + u32(len(strings.Fields(s)))")
+    both("strings_TrimSpace_Fields", wn, "u32", "s := string(vtBytes(w, n))\n\treturn vtHash(strings.TrimSpace(s))*31 + u32(len(strings.Fields(s)))",
+         zone=("w&0x80808080 != 0", "@non-ascii-input"))
     both("bytes_Equal_Index", [("w", "u32"), ("n", "u32"), ("c", "u8")], "i32", "b := vtBytes(w, n)\n\th := i32(bytes.IndexByte(b, c)) * 4\n\tif bytes.Equal(b, []byte{c}) {\n\t\th += 1\n\t}\n\treturn h + i32(bytes.Compare(b, []byte{c, c}))")
     return T
 
